@@ -50,6 +50,7 @@ GUARDS = {
     'other == 0': 'otherEqZero',
     'self.is_linear': 'selfIsLinear',
     'isinstance(other, Real)': 'otherIsReal',
+    'other.domain.field == self.range': 'otherDomainFieldIsRange',
 }
 
 CLASSES = ['OperatorSum', 'OperatorVectorSum', 'OperatorComp', 'OperatorPointwiseProduct',
@@ -266,12 +267,173 @@ def _flags(op_classes, fn_classes, df_classes):
     return flags
 
 
-def _merge_ok(cls):
+def _stores(fn, names):
+    """every statement of `fn` that (re)binds one of `names`"""
+    out = []
+    for node in ast.walk(fn):
+        if isinstance(node, (ast.Assign, ast.AugAssign, ast.AnnAssign, ast.For, ast.With,
+                             ast.NamedExpr)):
+            targets = []
+            if isinstance(node, ast.Assign):
+                targets = node.targets
+            elif isinstance(node, (ast.AugAssign, ast.AnnAssign, ast.NamedExpr)):
+                targets = [node.target]
+            elif isinstance(node, ast.For):
+                targets = [node.target]
+            elif isinstance(node, ast.With):
+                targets = [i.optional_vars for i in node.items if i.optional_vars is not None]
+            for t in targets:
+                for n in ast.walk(t):
+                    if isinstance(n, ast.Name) and n.id in names:
+                        out.append(node)
+    return out
+
+
+def _merge_rule(cls):
+    """The ONLY rebinding of `scalar`/`operator` in `cls.__init__` must be the top-level block
+    `if isinstance(operator, cls): scalar = scalar * operator.scalar; operator = operator.operator`
+    (-> ownClassProduct), or there is none (-> none)."""
     init = _methods(cls)['__init__']
-    for node in ast.walk(init):
-        if isinstance(node, ast.If) and _u(node.test) == 'isinstance(operator, {})'.format(cls.name):
-            return [_u(s) for s in node.body] == MERGE
-    return False
+    stores = _stores(init, ('scalar', 'operator'))
+    blocks = [n for n in init.body if isinstance(n, ast.If) and
+              _u(n.test) == 'isinstance(operator, {})'.format(cls.name)]
+    if not stores and not blocks:
+        return 'none'
+    if len(blocks) == 1 and not blocks[0].orelse and [_u(x) for x in blocks[0].body] == MERGE \
+            and sorted(map(_u, stores)) == sorted(MERGE):
+        return 'ownClassProduct'
+    raise ExtractionError('{}.__init__ rebinds scalar/operator in a way the grammar does not '
+                          'know: {}'.format(cls.name, sorted(set(map(_u, stores)))))
+
+
+def _functional_scalar_ctor_ok(fnc):
+    """FunctionalLeft/RightScalarMult.__init__ must not rebind func/scalar except for the cast
+    `scalar = func.domain.field.element(scalar)` of the Right class, and must hand exactly
+    (operator=func, scalar=scalar) to the Operator base constructor."""
+    want = {'FunctionalLeftScalarMult': ([], 'OperatorLeftScalarMult'),
+            'FunctionalRightScalarMult': (['scalar = func.domain.field.element(scalar)'],
+                                          'OperatorRightScalarMult')}
+    for name, (stores, base) in want.items():
+        init = _methods(fnc[name])['__init__']
+        got = sorted(set(_u(x) for x in _stores(init, ('scalar', 'func', 'operator'))))
+        if got != stores:
+            return False, '{}.__init__ rebinds {}'.format(name, got)
+        calls = [c for callee, c in _init_calls(fnc[name]) if callee == base]
+        if len(calls) != 1 or _u(calls[0]) != '{}.__init__(self, operator=func, scalar=scalar)'.format(base):
+            return False, '{}.__init__ base call changed'.format(name)
+    return True, ''
+
+
+# --- out-of-place `_call` bodies -> CExpr ----------------------------------------------
+
+SUBS = {'left': 'first', 'operator': 'first', 'functional': 'first', 'dividend': 'first',
+        'right': 'second', 'divisor': 'second'}
+ATTRS = {'scalar': 'scalar', 'vector': 'vector', 'constant': 'constant'}
+
+
+def _cexpr(node):
+    if isinstance(node, ast.Name) and node.id == 'x':
+        return 'CExpr.x'
+    if isinstance(node, ast.Attribute) and _u(node.value) == 'self' and node.attr in ATTRS:
+        return 'CExpr.' + ATTRS[node.attr]
+    if isinstance(node, ast.Call) and isinstance(node.func, ast.Attribute) and \
+            _u(node.func.value) == 'self' and node.func.attr in SUBS and len(node.args) == 1 \
+            and not node.keywords:
+        return '(CExpr.{} {})'.format(SUBS[node.func.attr], _cexpr(node.args[0]))
+    if isinstance(node, ast.BinOp) and isinstance(node.op, (ast.Add, ast.Mult, ast.Div)):
+        op = {ast.Add: 'add', ast.Mult: 'mul', ast.Div: 'div'}[type(node.op)]
+        return '(CExpr.{} {} {})'.format(op, _cexpr(node.left), _cexpr(node.right))
+    raise ExtractionError('unknown expression in a _call body: `{}`'.format(_u(node)))
+
+
+INPLACE = {
+    'OperatorSum': ['tmp = self.__tmp_ran if self.__tmp_ran is not None else self.range.element()',
+                    'self.left(x, out=tmp)', 'self.right(x, out=out)', 'out += tmp'],
+    'OperatorVectorSum': ['self.operator(x, out=out)', 'out += self.vector', 'return out'],
+    'OperatorPointwiseProduct': ['tmp = self.right.range.element()', 'self.left(x, out=tmp)',
+                                 'self.right(x, out=out)', 'out *= tmp'],
+    'OperatorLeftScalarMult': ['self.operator(x, out=out)', 'out *= self.scalar'],
+    'OperatorRightScalarMult': ['if self.__tmp is not None:\n    tmp = self.__tmp\nelse:\n'
+                                '    tmp = self.domain.element()',
+                                'tmp.lincomb(self.scalar, x)', 'self.operator(tmp, out=out)'],
+    'OperatorLeftVectorMult': ['self.operator(x, out=out)', 'out *= self.vector'],
+    'OperatorRightVectorMult': ['tmp = self.domain.element()', 'x.multiply(self.vector, out=tmp)',
+                                'self.operator(tmp, out=out)'],
+    'FunctionalLeftVectorMult': ['scalar = self.functional(x)', 'out.lincomb(scalar, self.vector)'],
+}
+
+
+def _call_tables(opc, fnc, dfc):
+    """(class -> CExpr of the out-of-place return, list of in-place pin failures)"""
+    own, pins = {}, []
+    for c in CLASSES:
+        cls = opc.get(c) or fnc.get(c) or dfc.get(c)
+        m = _methods(cls).get('_call')
+        if m is None:
+            continue
+        body = _strip(m.body)
+        if len(body) == 1 and isinstance(body[0], ast.Return):
+            own[c] = _cexpr(body[0].value)
+            continue
+        if len(body) == 1 and isinstance(body[0], ast.If) and _u(body[0].test) == 'out is None' \
+                and len(body[0].body) == 1 and isinstance(body[0].body[0], ast.Return):
+            own[c] = _cexpr(body[0].body[0].value)
+            rest = body[0].orelse
+            if c == 'OperatorComp':
+                # elif self.right.is_functional: … else: tmp…; right(x, out=tmp); left(tmp, out=out)
+                txt = [_u(x) for x in rest]
+                want = ['if self.right.is_functional:\n    return self.left(self.right(x), out=out)'
+                        '\nelse:\n    tmp = self.__tmp if self.__tmp is not None else '
+                        'self.right.range.element()\n    self.right(x, out=tmp)\n'
+                        '    return self.left(tmp, out=out)']
+                if txt != want:
+                    pins.append('in-place branch of OperatorComp._call changed')
+            elif [_u(x) for x in rest] != INPLACE.get(c):
+                pins.append('in-place branch of {}._call changed: {}'.format(
+                    c, [_u(x) for x in rest]))
+            continue
+        raise ExtractionError('{}._call has an unknown shape'.format(c))
+    # classes without their own _call inherit it (MRO: the Operator… base; ZeroFunctional from
+    # ConstantFunctional; FunctionalScalarSum from FunctionalSum)
+    inherit = {'FunctionalSum': 'OperatorSum', 'FunctionalScalarSum': 'FunctionalSum',
+               'FunctionalComp': 'OperatorComp', 'FunctionalProduct': 'OperatorPointwiseProduct',
+               'FunctionalLeftScalarMult': 'OperatorLeftScalarMult',
+               'FunctionalRightScalarMult': 'OperatorRightScalarMult',
+               'FunctionalRightVectorMult': 'OperatorRightVectorMult',
+               'ZeroFunctional': 'ConstantFunctional'}
+    out = {}
+    for c in CLASSES:
+        k = c
+        while k not in own:
+            if k not in inherit:
+                raise ExtractionError('no _call found for {}'.format(c))
+            cls = fnc.get(k) or dfc.get(k)
+            bases = [_u(b) for b in cls.bases]
+            if inherit[k] not in bases:
+                raise ExtractionError('bases of {} are {}'.format(k, bases))
+            k = inherit[k]
+        out[c] = own[k]
+    return out, pins
+
+
+def live_overrides():
+    """Every class derived from Operator that is loaded by `import odl` (all modules, not only
+    the parsed ones) and defines an arithmetic dunder, from the LIVE class hierarchy."""
+    import odl  # noqa  (the tree selected by ODL_REPO / PYTHONPATH)
+    import odl.solvers, odl.tomo, odl.trafos, odl.ufunc_ops, odl.deform  # noqa
+    seen, stack, found = set(), [odl.Operator], {}
+    while stack:
+        c = stack.pop()
+        if c in seen:
+            continue
+        seen.add(c)
+        stack.extend(c.__subclasses__())
+        if not (c.__module__ or '').startswith('odl.'):
+            continue
+        have = sorted(m for m in ARITH if m in vars(c))
+        if have:
+            found[c.__name__] = have
+    return found, len(seen)
 
 
 def extract(repo=None):
@@ -286,7 +448,7 @@ def extract(repo=None):
         sp_tree = ast.parse(f.read())
     opc, fnc, dfc, spc = _classes(op_tree), _classes(fn_tree), _classes(df_tree), _classes(sp_tree)
     # 1. who overrides arithmetic at all (the MRO chain hard-coded in the interpreter)
-    for tree_classes in (opc, fnc):
+    for tree_classes in (opc, fnc, dfc):
         for name, cls in tree_classes.items():
             have = [m for m in ARITH if m in _methods(cls) or m in _aliases(cls)]
             want = EXPECTED_OVERRIDES.get(name, [])
@@ -324,17 +486,17 @@ def extract(repo=None):
         'operatorRSub': _deleg(O['__rsub__']),
         'operatorNeg': _deleg(O['__neg__']),
         'operatorTruediv': _deleg(O['__truediv__']),
-        'operatorMatmul': _deleg(O['__matmul__']),
-        'operatorRMatmul': _deleg(O['__rmatmul__']),
         'functionalSub': _deleg(F['__sub__']),
     }
     if _aliases(opc['Operator']).get('__div__') != '__truediv__':
         raise ExtractionError('__div__ alias changed')
     radd_alias = _aliases(fnc['Functional']).get('__radd__') == '__add__'
     pow_ok = '\n'.join(_u(s) for s in _strip(O['__pow__'].body)) == POW_BODY
+    calls, pins = _call_tables(opc, fnc, dfc)
     prio = float(_class_const(opc['Operator'], '__array_priority__')) > \
         float(_class_const(spc['LinearSpaceElement'], '__array_priority__'))
-    merge = _merge_ok(opc['OperatorLeftScalarMult']) and _merge_ok(opc['OperatorRightScalarMult'])
+    merge_l = _merge_rule(opc['OperatorLeftScalarMult'])
+    merge_r = _merge_rule(opc['OperatorRightScalarMult'])
     flags = _flags(opc, fnc, dfc)
 
     def b(x):
@@ -349,23 +511,46 @@ def extract(repo=None):
     lines += ['def flagOf : Cls → Flag']
     for c in CLASSES:
         lines.append('  | .{} => .{}'.format(c, flags[c]))
+    lines += ['', 'def callOf : Cls → CExpr']
+    for c in CLASSES:
+        lines.append('  | .{} => {}'.format(c, calls[c]))
     lines += ['', 'def tables : Tables where']
     for k in ['operatorAdd', 'operatorMul', 'operatorRMul', 'rscalMul', 'functionalAdd',
               'functionalMul', 'functionalRMul']:
         lines.append('  {0} := {0}'.format(k))
     for k in ['operatorRAdd', 'operatorSub', 'operatorRSub', 'operatorNeg', 'operatorTruediv',
-              'operatorMatmul', 'operatorRMatmul', 'functionalSub']:
+              'functionalSub']:
         lines.append('  {} := {}'.format(k, delegs[k]))
     lines += ['  functionalRAddIsAdd := ' + b(radd_alias), '  powIsCompLoop := ' + b(pow_ok),
-              '  operatorPriorityHigher := ' + b(prio), '  scalarMergeIsProduct := ' + b(merge),
-              '  flagOf := flagOf', '', 'end OdlModel.Gen.AlgebraDispatch', '']
-    return '\n'.join(lines)
+              '  operatorPriorityHigher := ' + b(prio),
+              '  mergeLeft := Merge.' + merge_l, '  mergeRight := Merge.' + merge_r,
+              '  flagOf := flagOf', '  callOf := callOf', '', 'end OdlModel.Gen.AlgebraDispatch', '']
+    # assertions that are NOT Lean content: reported as separate extraction obligations
+    fs_ok, fs_why = _functional_scalar_ctor_ok(fnc)
+    asserts = [
+        ('assert(A @ x is A.__mul__(x), x @ A is A.__rmul__(x), __div__ is __truediv__)',
+         _deleg(O['__matmul__']) == 'Deleg.selfMulOther' and
+         _deleg(O['__rmatmul__']) == 'Deleg.selfRMulOther', 'source text compared'),
+        ('assert(Functional{Left,Right}ScalarMult.__init__ hand (func, scalar) unchanged to the '
+         'Operator base constructor)', fs_ok, fs_why or 'source text compared'),
+        ('assert(in-place branches of the _call bodies are the modelled statement lists)',
+         not pins, '; '.join(pins) or 'source text compared'),
+    ]
+    return '\n'.join(lines), asserts
 
 
 def regenerate(repo=None):
     path = os.path.join(core.LEAN, 'OdlModel', 'Gen', 'AlgebraDispatch.lean')
     try:
-        lean = extract(repo)
+        lean, asserts = extract(repo)
+        found, n = live_overrides()
+        asserts.append((
+            'assert(no class loaded by `import odl` other than Operator, OperatorRightScalarMult, '
+            'Functional defines an arithmetic dunder; {} live subclasses of Operator scanned)'.format(n),
+            {k: sorted(v) for k, v in found.items()} ==
+            {k: sorted(v) for k, v in EXPECTED_OVERRIDES.items()},
+            'live class hierarchy: ' + repr({k: v for k, v in found.items()
+                                             if sorted(v) != sorted(EXPECTED_OVERRIDES.get(k, []))})))
     except Exception:
         # do not leave tables extracted from some OTHER tree (an earlier run with a different
         # ODL_REPO) behind: fall back to the committed file, then report the failure
@@ -376,8 +561,8 @@ def regenerate(repo=None):
         if p.returncode == 0 and p.stdout:
             core.write_if_changed(path, p.stdout)
         raise
-    return core.write_if_changed(path, lean)
+    return core.write_if_changed(path, lean), asserts
 
 
 if __name__ == '__main__':
-    print(extract())
+    print(extract()[0])
